@@ -1,5 +1,5 @@
 // Command instrument copies a checkout of the library into a scratch directory and inserts
-// verifhook.Yield calls (a) at the entry of every function and function literal and (b) before and
+// verifhook.Yield calls (a) at the entry of every declared function and method and (b) before and
 // after every simple statement that calls a synchronisation-like method (Lock, Unlock, Load, Store,
 // Get, Put, Do, ...). The C18 check builds against this copy, so that the seeded scheduler can pre-empt
 // a task inside code the unchanged library does not have (a new cache, a new lock), not only at the
@@ -149,11 +149,10 @@ func (in *inst) walk(n ast.Node) {
 			if x.Body != nil {
 				x.Body.List = append([]ast.Stmt{in.yield(x.Body.Lbrace, "func")}, x.Body.List...)
 			}
-		case *ast.FuncLit:
-			if x.Body != nil {
-				x.Body.List = append([]ast.Stmt{in.yield(x.Body.Lbrace, "func")}, x.Body.List...)
-			}
 		}
+		// Function literals get no entry yield: the library passes literals to sort.Slice over collections
+		// it built by ranging over Go maps, so the number of comparator calls (and with it the schedule)
+		// would differ from process to process for the same choices.
 		return true
 	})
 	// second pass: statement lists (after the entry yields exist; they never call sync methods themselves)
